@@ -5,3 +5,18 @@
 pub use crate::bab::{solve as bab_solve, NodeResult, Statistics};
 pub use crate::hungarian::{hungarian_algorithm, EdgeWeight, Matching, Score};
 pub use crate::util::{binom, IterSelections, KSelectionIterator};
+
+thread_local! {
+    /// The dual labels (labels_x, labels_y) at the end of the most recent run of `hungarian_algorithm` on this thread:
+    /// the optimality certificate of the returned matching.
+    static LAST_LABELS: std::cell::RefCell<(Vec<i32>, Vec<i32>)> = std::cell::RefCell::new((Vec::new(), Vec::new()));
+}
+
+pub(crate) fn record_labels(labels_x: Vec<i32>, labels_y: Vec<i32>) {
+    LAST_LABELS.with(|l| *l.borrow_mut() = (labels_x, labels_y));
+}
+
+/// Returns the labels recorded by the most recent run of `hungarian_algorithm` on the calling thread.
+pub fn last_labels() -> (Vec<i32>, Vec<i32>) {
+    LAST_LABELS.with(|l| l.borrow().clone())
+}
